@@ -17,7 +17,7 @@ def rules_for(prop):
 
     def per_subscription(*rels):
         """SUB-1 / SUB-2 / SUB-3 / GEN-1 / GEN-3 on the modules a property is about (None: every module)"""
-        rules = [sub.rule_sub1, sub.rule_sub2, sub.rule_sub3, sub.rule_gen1, sub.rule_gen3]
+        rules = [sub.rule_sub1, sub.rule_sub2, sub.rule_sub3, sub.rule_gen1, sub.rule_gen3, sub.rule_cfg1]
         return rules if not rels else [scoped(x, rels) for x in rules]
     def error_paths(rule):
         """the tree-wide protocol rule, keeping the findings about the paths an OnErrorMux takes (C13: an unhandled mux error reaches the
@@ -34,7 +34,7 @@ def rules_for(prop):
 
     def plumbing(*rels):
         """SUB-3 / GEN-3 on the modules a property is about"""
-        return [scoped(sub.rule_sub3, rels), scoped(sub.rule_gen3, rels)]
+        return [scoped(sub.rule_sub3, rels), scoped(sub.rule_gen3, rels), scoped(sub.rule_cfg1, rels)]
     SEQ = ("rxsci/operators/first.py", "rxsci/operators/last.py", "rxsci/operators/take.py", "rxsci/operators/distinct.py",
            "rxsci/operators/distinct_until_changed.py", "rxsci/data/lag.py", "rxsci/data/pad.py", "rxsci/operators/start_with.py",
            "rxsci/data/batch.py", "rxsci/data/sort.py", "rxsci/data/to_deque.py", "rxsci/data/to_list.py", "rxsci/operators/scan.py")
@@ -50,17 +50,17 @@ def rules_for(prop):
                                            "rxsci/operators/multiplex.py"), min_instances=1), named(grp.rule_fw1, heads=("group_by",)), grp.rule_fl1,
                 named(lv.rule_lv, only=("group_by_mux._group_by.on_subscribe",)), ms.ms_for_types("mapper", maps=True), ms.rule_tp1, *plumbing(*("rxsci/operators/group_by.py", "rxsci/operators/multiplex.py", "rxsci/state/with_store.py"))],
         "C05": [named(grp.rule_fwd1, heads=("roll",)), grp.rule_roll, named(grp.rule_fw1, heads=("roll_count",)), scoped(st.rule_st2_3_4, ROLL), scoped(st.rule_st6, ROLL),
-                named(lv.rule_lv, only=("roll_mux._roll.subscribe", "roll_mux._roll_count.subscribe")), ms.ms_for_types("int", "uint"), *plumbing(*ROLL)],
-        "C08": per_subscription("rxsci/operators/tee_map.py") + [tm.rule_tm123, tm.rule_tm4, tm.rule_tm5, st.rule_st5, mx.rule_mx7, ag.rule_ag1],
-        "C09": scan.RULES + per_subscription("rxsci/operators/scan.py", "rxsci/operators/count.py", "rxsci/data/to_list.py", "rxsci/data/to_array.py") + [ms.ms_for_types("int", "float", "bool", "obj", maps=True)],
+                named(lv.rule_lv, only=("roll_mux._roll.subscribe", "roll_mux._roll_count.subscribe")), ms.ms_for_types("int", "uint"), ms.rule_tp1, *plumbing(*ROLL)],
+        "C08": per_subscription("rxsci/operators/tee_map.py") + [tm.rule_tm123, tm.rule_tm4, tm.rule_tm5, st.rule_st5, mx.rule_mx7, ag.rule_ag1, lv.rule_lv],
+        "C09": scan.RULES + per_subscription("rxsci/operators/scan.py", "rxsci/operators/count.py", "rxsci/data/to_list.py", "rxsci/data/to_array.py") + [ms.ms_for_types("int", "float", "bool", "obj", maps=True), ms.rule_tp1],
         "C10": seq.RULES + per_subscription(*SEQ) + [only_constructs(ag.rule_ag1, SEQ), only_constructs(ag.rule_ag2, SEQ), scan.rule_sc1, named(grp.rule_eq1, files=("rxsci/operators/distinct.py", "rxsci/operators/distinct_until_changed.py",
                                                        "rxsci/operators/first.py", "rxsci/operators/take.py", "rxsci/operators/last.py",
                                                        "rxsci/data/lag.py", "rxsci/data/pad.py", "rxsci/operators/start_with.py",
-                                                       "rxsci/data/batch.py"), min_instances=1), ms.ms_for_types("int", "bool", "obj", maps=True)],
+                                                       "rxsci/data/batch.py"), min_instances=1), ms.ms_for_types("int", "bool", "obj", maps=True), ms.rule_tp1],
         "C11": [io.rule_framing, pr.rule_pr1, pr.rule_pr2, grp.rule_pr3, seq.rule_dp6, st.rule_st1, tm.rule_tm123, tm.rule_tm4, io.rule_fr3_prompt,
                 *plumbing(*("rxsci/operators/scan.py", "rxsci/data/roll.py", "rxsci/data/split.py", "rxsci/data/time_split.py", "rxsci/operators/group_by.py",
                                        "rxsci/operators/tee_map.py", "rxsci/data/batch.py", "rxsci/operators/multiplex.py"))],
-        "C12": [ms.ms_for_types("int", "float", "bool", "obj", maps=True), scan.rule_sd1, num.rule_nm1, ag.rule_ag4, named(scan.rule_pu1, files=("rxsci/math/sum.py", "rxsci/math/mean.py", "rxsci/math/min.py", "rxsci/math/max.py",
+        "C12": [ms.ms_for_types("int", "float", "bool", "obj", maps=True), ms.rule_tp1, scan.rule_sd1, num.rule_nm1, ag.rule_ag4, named(scan.rule_pu1, files=("rxsci/math/sum.py", "rxsci/math/mean.py", "rxsci/math/min.py", "rxsci/math/max.py",
                                                           "rxsci/math/variance.py", "rxsci/math/stddev.py", "rxsci/math/formal/variance.py",
                                                           "rxsci/math/formal/stddev.py", "rxsci/math/formal/__init__.py"))],
         "C13": er.RULES + [mx.rule_wc2, st.rule_st8, mx.rule_ev1, error_paths(mx.rule_mx_flat), *plumbing(*("rxsci/error/ignore.py", "rxsci/error/map.py", "rxsci/error/router.py", "rxsci/operators/map.py",
@@ -73,9 +73,9 @@ def rules_for(prop):
         "C19": [cont.rule_ag7, io.rule_framing, io.rule_codec, io.rule_compression, io.rule_fr3, io.rule_fh1_file] + per_subscription("rxsci/container/json.py", *(FRAMING + COMPRESSION + CODEC + FILEIO)),
         "C20": [cont.rule_pu2, seq.rule_dp6, io.rule_fh1_parquet, scan.rule_sd1, scan.rule_sc1] + per_subscription("rxsci/container/parquet.py", "rxsci/data/batch.py", "rxsci/operators/scan.py"),
         "C06": [named(grp.rule_fwd1, heads=("split",)), named(grp.rule_eq1, files=("rxsci/data/split.py",), min_instances=1), named(grp.rule_fw1, heads=("split",)), grp.rule_dp4,
-                named(lv.rule_lv, only=("split_mux._split.on_subscribe",)), ms.ms_for_types("obj"), mx.rule_mx6, *plumbing(*("rxsci/data/split.py",))],
+                named(lv.rule_lv, only=("split_mux._split.on_subscribe",)), ms.ms_for_types("obj"), ms.rule_tp1, mx.rule_mx6, *plumbing(*("rxsci/data/split.py",))],
         "C07": [named(grp.rule_fwd1, heads=("time_split",)), grp.rule_time_split, seq.rule_opt1_time_split, named(grp.rule_fw1, heads=("time_split",)),
-                named(lv.rule_lv, only=("time_split_mux._time_split.on_subscribe",)), ms.ms_for_types("obj"), *plumbing(*("rxsci/data/time_split.py",))],
+                named(lv.rule_lv, only=("time_split_mux._time_split.on_subscribe",)), ms.ms_for_types("obj"), ms.rule_tp1, *plumbing(*("rxsci/data/time_split.py",))],
     }
     return table.get(prop)
 
@@ -159,7 +159,8 @@ EXPLANATION = {
 # clauses added after the texts above were written (seed round f, mutation round 4); appended so that every evidence file names them
 _PLUMB = (" Also, on the modules of this property: SUB-3 every subscription an operator makes passes a handler for on_next, on_error and "
           "on_completed (or the whole observer) and subscribes its source at most once on a path; GEN-3 every function that builds an "
-          "operator's observable returns a value on every path.")
+          "operator's observable returns a value on every path; CFG-1 a factory parameter the handlers test is not recomputed in the factory from "
+          "anything but itself (otherwise the run ends as ANALYSIS-ERROR: the per-configuration reading of the handlers would not describe them).")
 _ADDED = {
     "C01": _PLUMB,
     "C02": " TP-1 the state topology gives every declaration a new state id (create_mapper included); MX-6 one topology is probed by every subscriber of a merged source.",
